@@ -62,6 +62,32 @@ type Query struct {
 	Start ssa.Instruction
 	// SkipEdge: edges that are not followed at all (infeasible by rule)
 	SkipEdge func(b *ssa.BasicBlock, succ int) bool
+	// GenAtoms (with R): atoms that establish the fact; used in addition to GenEdge for blocks
+	// that branch on one of their own phis: entered through a known predecessor edge, the branch
+	// condition is that edge's value (`found := true / found := has(m,k)` merged, then `if !found`)
+	GenAtoms []string
+	R        *Renderer
+}
+
+// phiEdgeAtom: b branches on its own boolean phi (possibly negated); the atom that holds on
+// successor k when b was entered through predecessor pred.
+func phiEdgeAtom(R *Renderer, b *ssa.BasicBlock, pred, k int) (Atom, bool) {
+	if pred < 0 || R == nil {
+		return Atom{}, false
+	}
+	phi, kind := phiCondOf(b)
+	if phi == nil || (kind != 1 && kind != 2) || pred >= len(phi.Edges) {
+		return Atom{}, false
+	}
+	v := phi.Edges[pred]
+	if _, isConst := v.(*ssa.Const); isConst {
+		return Atom{}, false
+	}
+	a := R.CondAtom(v)
+	if (kind == 2) != (k == 1) {
+		a = a.Neg()
+	}
+	return a, true
 }
 
 type Witness struct {
@@ -422,6 +448,16 @@ func (q Query) Run() []Witness {
 			if q.GenEdge != nil && q.GenEdge(s.b, k) {
 				h = true
 			}
+			if !h && len(q.GenAtoms) > 0 {
+				if a, ok := phiEdgeAtom(q.R, s.b, s.pred, k); ok {
+					as := a.String()
+					for _, w := range q.GenAtoms {
+						if w == as {
+							h = true
+						}
+					}
+				}
+			}
 			if q.KillEdge != nil && q.KillEdge(s.b, k) {
 				h = false
 			}
@@ -738,8 +774,46 @@ func strip(v ssa.Value) ssa.Value {
 }
 
 // provablyNonNilError: fresh error values.
+var nonNilFnMemo = map[*ssa.Function]int{} // 0 unknown, 1 yes, 2 no / in progress
+
+// alwaysNonNilError: every return of the same-module function hands out a provably non-nil error
+// as its last result (`func (r *replicator) toBackendError(err error) error { ...; return &BackendError{...} }`).
+func alwaysNonNilError(f *ssa.Function) bool {
+	if f == nil || len(f.Blocks) == 0 || !isJivaFn(f) {
+		return false
+	}
+	switch nonNilFnMemo[f] {
+	case 1:
+		return true
+	case 2:
+		return false
+	}
+	nonNilFnMemo[f] = 2
+	ei := errResultIndex(f)
+	if ei < 0 {
+		return false
+	}
+	n := 0
+	for _, r := range Returns(f) {
+		n++
+		if ei >= len(r.Results) || !provablyNonNilError(r.Results[ei]) {
+			return false
+		}
+	}
+	if n == 0 {
+		return false
+	}
+	nonNilFnMemo[f] = 1
+	return true
+}
+
 func provablyNonNilError(v ssa.Value) bool {
 	v = strip(v)
+	if cl, ok := v.(*ssa.Call); ok {
+		if f := cl.Common().StaticCallee(); f != nil && f.Signature.Results().Len() == 1 && alwaysNonNilError(f) {
+			return true
+		}
+	}
 	switch x := v.(type) {
 	case *ssa.MakeInterface:
 		if _, ok := x.X.(*ssa.Alloc); ok {
